@@ -1243,4 +1243,175 @@ Proof.
     intros i q0 E0. cbn in E0. apply nth_set_nth in E0 as [[-> ->]|[Hk E0]]; [exact W'|apply Hi; exact E0].
 Qed.
 
+Lemma q_init_wf i : q_wf cf i q_init.
+Proof.
+  unfold q_wf, v_wf. cbn. repeat split; intros; try discriminate; try reflexivity;
+  repeat match goal with H : exists _, _ |- _ => destruct H end; discriminate.
+Qed.
+
+Lemma joint_init_inv : jinv (joint_init cf).
+Proof.
+  unfold joint_init. split; [cbn; apply repeat_length|]. split; [|split; [|intros; discriminate]].
+  - intros i q E. cbn in E. apply nth_error_In in E. apply repeat_spec in E. subst q.
+    split; [apply q_init_wf|intros; discriminate].
+  - exists false, false. intros q Hin. cbn in Hin. apply repeat_spec in Hin. subst q. auto.
+Qed.
+
+Theorem joint_api_follows_automaton cs :
+  map (fun o => class_of (fst o)) (run (joint_step cf) (joint_init cf) cs)
+  = map Some (aut_trace PJoint cf true a_init cs).
+Proof.
+  pose proof (run_follows (joint_step cf) PJoint cf true jinv jabs joint_step_sim cs (joint_init cf) joint_init_inv) as H.
+  assert (E : jabs (joint_init cf) = a_init).
+  { unfold jabs, joint_init. cbn. destruct (c_n cf); reflexivity. }
+  rewrite E in H. exact H.
+Qed.
+
+Theorem joint_run_complete cs : length (run (joint_step cf) (joint_init cf) cs) = length cs.
+Proof. exact (run_length (joint_step cf) PJoint cf true jinv jabs joint_step_sim cs (joint_init cf) joint_init_inv). Qed.
+
+Lemma joint_reachable_inv cs : jinv (final (joint_step cf) (joint_init cf) cs).
+Proof. exact (final_inv (joint_step cf) PJoint cf true jinv jabs joint_step_sim cs (joint_init cf) joint_init_inv). Qed.
+
+Lemma set_nth_same {A} (l : list A) i x : nth_error l i = Some x -> set_nth l i x = l.
+Proof.
+  revert i; induction l as [|a l IH]; intros [|i] H; cbn in *; try discriminate.
+  - inversion H; reflexivity.
+  - f_equal. apply IH. exact H.
+Qed.
+
+Definition is_start (c : call) : Prop := exists sd, c = CStart sd.
+
+(* refused calls are no-ops.  The only field that may differ is the shared dkgCommon.running
+   flag after a refused Start (Start clears it before trying); it is never read while
+   jointRunning is false, see joint_run_flag_unobservable. *)
+Lemma joint_refused_noop s c s' res ev :
+  jinv s -> joint_step cf s c = (s', res, ev) -> is_refusal res -> degenerate_start cf true c = false ->
+  j_jrun s' = j_jrun s /\ j_insts s' = j_insts s /\ (j_run s' = j_run s \/ is_start c) /\ ev = [].
+Proof.
+  intros Hinv H Hr Hdeg. pose proof (insts_nonempty s Hinv) as Hne.
+  pose proof Hinv as (L & Hi & (st & ct & Hs) & J4).
+  destruct (same_to_hd _ _ _ Hs Hne) as [Hst Hct].
+  destruct s as [run jrun insts]. cbn [j_insts j_jrun j_run] in *.
+  assert (Hsame : forall X, X = (s', res, ev) -> X = (mkJ run jrun insts, res, []) ->
+            j_jrun s' = jrun /\ j_insts s' = insts /\ (j_run s' = run \/ is_start c) /\ ev = []).
+  { intros X E1 E2. rewrite E1 in E2. inversion E2; subst. cbn. auto. }
+  assert (Hnot : forall X r e (s0 : jstate), X = (s', res, ev) -> X = (s0, r, e) -> ~ is_refusal r -> False).
+  { intros X r e s0 E1 E2 Hn. rewrite E1 in E2. inversion E2; subst. contradiction. }
+  destruct c as [sd| | | |o m|o m|j]; cbn [joint_step] in H.
+  - (* Start *)
+    unfold joint_start in H. cbn [j_jrun j_insts] in H. destruct jrun; [(inversion H; subst; cbn; repeat split; auto)|].
+    destruct (nth_error_lt insts (c_my cf)) as [q Eq]; [rewrite L; exact Hmy|]. rewrite Eq in H.
+    pose proof (qual_refused_noop cf (c_my cf) Hmy (mkQS false q) (CStart sd)) as HN.
+    cbn [qual_step qs_run qs_q] in HN.
+    destruct (q_start cf (c_my cf) false q sd) as [[[run' q'] res'] ev'].
+    destruct res'; inversion H; subst; try (destruct Hr; discriminate).
+    + destruct (HN _ _ _ eq_refl Hr) as [E1 E2].
+      { unfold degenerate_start in *. rewrite Nat.eqb_refl. exact Hdeg. }
+      inversion E1; subst. cbn. rewrite (set_nth_same _ _ _ Eq). repeat split; auto. right. eexists; reflexivity.
+    + destruct (HN _ _ _ eq_refl Hr) as [E1 E2].
+      { unfold degenerate_start in *. rewrite Nat.eqb_refl. exact Hdeg. }
+      inversion E1; subst. cbn. rewrite (set_nth_same _ _ _ Eq). repeat split; auto. right. eexists; reflexivity.
+  - (* NextTimeout *)
+    unfold joint_next_timeout in H. cbn [j_jrun j_insts j_run] in H. destruct jrun; cbn [negb] in H; [|(inversion H; subst; cbn; repeat split; auto)].
+    rewrite (J4 eq_refl) in *.
+    destruct ct.
+    + destruct insts as [|q0 qs]; [congruence|]. cbn in Hct.
+      rewrite (jloop_refused _ 0%nat true q0 qs RStateErr) in H.
+      * (inversion H; subst; cbn; repeat split; auto).
+      * unfold q_next_timeout. cbn. rewrite Hct. reflexivity.
+      * discriminate.
+    + exfalso.
+      destruct (jloop_call_ok (mkJ true true insts) CNextTimeout S Hinv eq_refl) with
+        (f := fun i run q => q_next_timeout cf i run q) as (qs' & ev0 & E & _).
+      * intros b. unfold jabs. cbn. rewrite Hst, Hct. destruct st; reflexivity.
+      * intros; reflexivity.
+      * cbn [j_insts] in E. rewrite E in H. inversion H; subst. destruct Hr; discriminate.
+  - (* End *)
+    unfold joint_end in H. cbn [j_jrun j_insts j_run] in H. destruct jrun; cbn [negb] in H; [|(inversion H; subst; cbn; repeat split; auto)].
+    destruct (st && ct) eqn:Eb.
+    + exfalso. apply andb_prop in Eb as [-> ->].
+      destruct (jend_loop_all insts 0%nat Hs) as (qs' & ev0 & E & HF). rewrite E in H.
+      repeat brk_hyp H; inversion H; subst; destruct Hr; discriminate.
+    + destruct insts as [|q0 qs]; [congruence|]. cbn in Hct, Hst.
+      rewrite jend_loop_none in H by (rewrite Hst, Hct; exact Eb). (inversion H; subst; cbn; repeat split; auto).
+  - inversion H; subst. destruct Hr; discriminate.
+  - (* HandleBroadcastMsg *)
+    unfold joint_broadcast in H. cbn [j_jrun j_insts j_run] in H. destruct jrun; cbn [negb] in H; [|(inversion H; subst; cbn; repeat split; auto)].
+    rewrite (J4 eq_refl) in *.
+    destruct (in_range cf o) eqn:Eo.
+    + exfalso.
+      destruct (jloop_call_ok (mkJ true true insts) (CBroadcast o m) (fun k => k) Hinv eq_refl) with
+        (f := fun i run q => q_broadcast cf i run q o m) as (qs' & ev0 & E & _).
+      * intros b. cbn. rewrite Eo. reflexivity.
+      * intros; reflexivity.
+      * cbn [j_insts] in E. rewrite E in H. inversion H; subst. destruct Hr; discriminate.
+    + destruct insts as [|q0 qs]; [congruence|].
+      rewrite (jloop_refused _ 0%nat true q0 qs RInvalidInput) in H.
+      * (inversion H; subst; cbn; repeat split; auto).
+      * unfold q_broadcast. cbn. rewrite Eo. reflexivity.
+      * discriminate.
+  - (* HandlePrivateMsg *)
+    unfold joint_private in H. cbn [j_jrun j_insts j_run] in H. destruct jrun; cbn [negb] in H; [|(inversion H; subst; cbn; repeat split; auto)].
+    rewrite (J4 eq_refl) in *.
+    destruct (in_range cf o) eqn:Eo.
+    + exfalso.
+      destruct (jloop_call_ok (mkJ true true insts) (CPrivate o m) (fun k => k) Hinv eq_refl) with
+        (f := fun i run q => q_private cf i run q o m) as (qs' & ev0 & E & _).
+      * intros b. cbn. rewrite Eo. reflexivity.
+      * intros; reflexivity.
+      * cbn [j_insts] in E. rewrite E in H. inversion H; subst. destruct Hr; discriminate.
+    + destruct insts as [|q0 qs]; [congruence|].
+      rewrite (jloop_refused _ 0%nat true q0 qs RInvalidInput) in H.
+      * (inversion H; subst; cbn; repeat split; auto).
+      * unfold q_private. cbn. rewrite Eo. reflexivity.
+      * discriminate.
+  - (* ForceDisqualify *)
+    unfold joint_force in H. cbn [j_jrun j_insts j_run] in H. destruct jrun; cbn [negb] in H; [|(inversion H; subst; cbn; repeat split; auto)].
+    rewrite (J4 eq_refl) in *.
+    destruct (in_range cf j) eqn:Ej; cbn [negb] in H; [|(inversion H; subst; cbn; repeat split; auto)].
+    exfalso. pose proof (in_range_lt j Ej) as Hlt.
+    destruct (nth_error_lt insts (Z.to_nat j)) as [q Eq]; [rewrite L; exact Hlt|]. rewrite Eq in H.
+    unfold q_force in H. cbn in H. rewrite Ej in H. cbn in H.
+    destruct (Nat.eqb (Z.to_nat j) (Z.to_nat j)); inversion H; subst; destruct Hr; discriminate.
+Qed.
+
+(* the shared running flag is not observable while jointRunning is false *)
+Lemma joint_run_flag_unobservable b1 b2 insts c :
+  let '(s1, r1, e1) := joint_step cf (mkJ b1 false insts) c in
+  let '(s2, r2, e2) := joint_step cf (mkJ b2 false insts) c in
+  r1 = r2 /\ e1 = e2 /\ j_jrun s1 = j_jrun s2 /\ j_insts s1 = j_insts s2 /\
+  (j_jrun s1 = true -> j_run s1 = j_run s2).
+Proof.
+  destruct c; cbn [joint_step]; try (cbn; repeat split; auto; intros; discriminate).
+  unfold joint_start. cbn [j_jrun j_insts].
+  destruct (nth_error insts (c_my cf)); [|cbn; repeat split; auto; intros; discriminate].
+  destruct (q_start cf (c_my cf) false q sd) as [[[run' q'] res] ev].
+  destruct res; cbn; repeat split; auto.
+Qed.
+
+Lemma joint_end_not_running s s' res ev :
+  joint_step cf s CEnd = (s', res, ev) -> res <> RStateErr -> j_jrun s' = false.
+Proof.
+  cbn [joint_step]. unfold joint_end. intros H Hn.
+  destruct (j_jrun s) eqn:Ej; cbn [negb] in H; [|inversion H; subst; congruence].
+  destruct (jend_loop cf 0 (j_insts s)) as [[qs ev0] tot].
+  destruct tot; [|inversion H; subst; congruence].
+  repeat brk_hyp H; inversion H; reflexivity.
+Qed.
+
+(* reuse after End: the instances keep their timeouts (and complaints, disqualified flags) *)
+Lemma joint_reuse_keeps_timeouts s sd s' res ev q :
+  joint_step cf s (CStart sd) = (s', res, ev) -> nth_error (j_insts s) my = Some q ->
+  exists q', nth_error (j_insts s') my = Some q' /\ q_st q' = q_st q /\ q_ct q' = q_ct q /\ q_disq q' = q_disq q.
+Proof.
+  cbn [joint_step]. unfold joint_start. intros H Eq. fold my in H. rewrite Eq in H.
+  destruct (j_jrun s); [inversion H; subst; eauto|].
+  pose proof (qual_reuse_keeps_timeouts cf my (mkQS false q) sd) as HK. cbn [qual_step qs_run qs_q] in HK.
+  destruct (q_start cf my false q sd) as [[[run' q'] res'] ev'].
+  destruct (HK _ _ _ eq_refl) as (K1 & K2 & K3). cbn in K1, K2, K3.
+  assert (Hl : (my < length (j_insts s))%nat) by (apply nth_error_Some; congruence).
+  exists q'. destruct res'; inversion H; subst; cbn; rewrite nth_set_nth_same by exact Hl; auto.
+Qed.
+
 End Joint.
